@@ -119,6 +119,8 @@ def main(c):
     c.sample({"ops": [line(edges[i]["op"]) for i in seqs[0][:12]]})
     import drvlib
     drvlib.rtr_operator_ends(c)
+    if not c.violations:
+        drvlib.atomicity(c, "C13", "vrps")
     c.assumptions += ["the cache is conforming (RFC 8210 sequencing); a PDU counts as processed when the client's per-type "
                       "counter advances, a PDU type without counter when a following Serial Notify is processed",
                       "Cache Reset is modelled as having no table effect (the client takes no action on it)"]
